@@ -13,7 +13,7 @@ returns another object than the model says are all disagreements -- on the exact
 change only their receiver, results are fresh objects, every method computes the value Buffer.v computes."""
 from core import mk, raw, L, R, randbits, Buffer, Driver, impl_outcome, side_char
 
-OPS = ['new', 'copy', 'shift', 'shift', 'pad', 'pad', 'value', 'getitem', 'getitem', 'getint', 'add', 'add', 'add', 'and', 'or', 'xor', 'invert',
+OPS = ['new', 'copy', 'iadd', 'shift', 'shift', 'pad', 'pad', 'value', 'getitem', 'getitem', 'getint', 'add', 'add', 'add', 'and', 'or', 'xor', 'invert',
        'setitem', 'setitem', 'setint', 'chunks', 'eq', 'hash', 'iter', 'len']
 
 
@@ -41,6 +41,14 @@ def call_for(t, obj):
         return lambda: A[oz(t[2]):oz(t[3])]
     if op == 'getint':
         return lambda: A[int(t[2])]
+    if op == 'iadd':
+        B_ = obj(int(t[2]))
+
+        def f_iadd():
+            x = A
+            x += B_
+            return x
+        return f_iadd
     if op in ('add', 'and', 'or', 'xor', 'eq'):
         B_ = obj(int(t[2]))
         return {'add': lambda: A + B_, 'and': lambda: A & B_, 'or': lambda: A | B_, 'xor': lambda: A ^ B_, 'eq': lambda: A == B_}[op]
@@ -137,7 +145,7 @@ def gen_and_run(rnd, nsteps):
             if n == 0:
                 continue
             t = ['getint', str(a), str(rnd.randrange(n))]
-        elif op in ('add', 'and', 'or', 'xor', 'eq'):
+        elif op in ('add', 'iadd', 'and', 'or', 'xor', 'eq'):
             if op in ('and', 'or', 'xor') and rnd.random() < 0.85:
                 b = rnd.choice([k for k in range(len(held)) if held[k].length == n])
             t = [op, str(a), str(b)]
@@ -157,7 +165,8 @@ def gen_and_run(rnd, nsteps):
 
 
 def line_of(init, toks):
-    return ' '.join(['H', 'prog', str(len(init))] + [raw(mk(bits, sd)) for bits, sd in init] + [str(len(toks))] + [x for tt in toks for x in tt])
+    # x = a; x += b is, for a class without __iadd__, the call a + b: the model's add
+    return ' '.join(['H', 'prog', str(len(init))] + [raw(mk(bits, sd)) for bits, sd in init] + [str(len(toks))] + [('add' if (k == 0 and x == 'iadd') else x) for tt in toks for k, x in enumerate(tt)])
 
 
 def compare(trace, mo):
@@ -240,7 +249,7 @@ def replay_line(line):
         held.append(Buffer(bytes.fromhex(h) if h != '-' else b'', int(ln), L if sd == 'L' else R))
     n = int(tk[3 + k])
     rest = tk[4 + k:]
-    ar = {'new': 3, 'copy': 1, 'shift': 3, 'pad': 3, 'value': 1, 'getitem': 3, 'getint': 2, 'add': 2, 'and': 2, 'or': 2, 'xor': 2, 'invert': 1,
+    ar = {'iadd': 2, 'new': 3, 'copy': 1, 'shift': 3, 'pad': 3, 'value': 1, 'getitem': 3, 'getint': 2, 'add': 2, 'and': 2, 'or': 2, 'xor': 2, 'invert': 1,
           'setitem': 4, 'setint': 3, 'chunks': 3, 'eq': 2, 'hash': 1, 'iter': 1, 'len': 1}
     toks, i = [], 0
     while i < len(rest) and len(toks) < n:
